@@ -397,6 +397,7 @@ func TestVerifC15(t *testing.T) {
 
 	// ---- representatives whose intermediates have chosen internal values (zz_verif_c15reps_test.go)
 	c15chosenRepresentatives(r, rng)
+	c15unitRepresentatives(r, rng)
 
 	// ---- stateful walk: a small pool of long-lived point OBJECTS is driven through random sequences of
 	//      every mutator and of the scalar multiplications, each object shadowed by the model's value.
